@@ -383,6 +383,11 @@ static void do_scan(void) {
     if (er) { ob_puts(&out, ",\"errule\":"); ob_jstr(&out, er->identifier, -1); }
     if (es) { ob_puts(&out, ",\"erstr\":"); ob_jstr(&out, es->identifier, -1); } }
   ob_putc(&out, '}');
+  if (kvl("brief", 0)) {   /* compact reply: return code + hash of the full observation (bulk enumerations) */
+    uint64_t h = fnv((const uint8_t*) out.p, out.n); char b[96];
+    snprintf(b, sizeof b, "{\"rc\":%d,\"h\":\"%016llx\",\"nmsg\":%d}", rc, (unsigned long long) h, u.nmsg);
+    ob_reset(&out); ob_puts(&out, b);
+  }
   yv_clock_virtual = 0;
   free(buf); free(md);
 }
